@@ -314,6 +314,12 @@ PRE_SETUP = {"call_s||call_s+rendezvous", "call_s||call_s"}
 BARE_BEHAVIOURS = ["ignore", "warning", "error"]
 
 
+# quick tier: scenarios explored at LINE level (one preemption at every source line of tawazi); the others are explored at their
+# synchronisation points in quick and at line level in thorough
+QUICK_LINE = ("build||call", "build_pause||call", "build_nest||call", "build||build2", "build_pause||bare", "first_call||first_call",
+              "setup(pa)||setup(pb)", "call||setup(pb)", "slow_setup||debug_call", "build_method||bare_method", "call_s||call_s")
+
+
 def cases(tier: str):
     q = tier == "quick"
     for name in SCENARIOS:
@@ -323,9 +329,9 @@ def cases(tier: str):
         # a bare call in one thread while a node of a running DAG executes in another: every source line is a switching point
         yield dict(scenario="call||bare", behaviour=beh, mode="line", preempt=1, part=0, parts=1)
     # line-level preemption: sharded over the position of the first preemption
-    parts = 8 if q else 16
+    parts = 7 if q else 15  # (coprime with the number of workers: the heavy first parts spread over all of them)
     for name in SCENARIOS:
-        if q and name in ("2ops", "build_pause||build||call", "build||call||call", "build_pause||build2", "failed_build_then_build||build_pause", "failed_build_then_call||build_pause", "failed_nested_build_then_nest||call", "call||bare"):
+        if q and name not in QUICK_LINE:
             continue
         for beh in (BARE_BEHAVIOURS[:1] + BARE_BEHAVIOURS[2:] if "bare" in name else ["error"]):
             for part in range(parts):
@@ -421,6 +427,8 @@ def run_case(acc, c, only_prefix=None):
     from tawazi.consts import XNOutsideDAGCall
 
     lib()
+    import time as _time
+    _t0 = _time.time()
     ops = SCENARIOS[c["scenario"]]
     old = cfg.TAWAZI_EXECNODE_OUTSIDE_DAG_BEHAVIOR
     cfg.TAWAZI_EXECNODE_OUTSIDE_DAG_BEHAVIOR = XNOutsideDAGCall(c["behaviour"])
@@ -483,6 +491,8 @@ def run_case(acc, c, only_prefix=None):
     finally:
         cfg.TAWAZI_EXECNODE_OUTSIDE_DAG_BEHAVIOR = old
         cfg.RUN_DEBUG_NODES = False
+        k_ = f"seconds[{c['scenario']}|{c['mode']}]"
+        acc.extra[k_] = round(acc.extra.get(k_, 0) + _time.time() - _t0, 1)
 
 
 def short(o):
